@@ -255,6 +255,64 @@ def run(ctx, build):
                                    'failure_mode': 'index_not_cartesian_fastest_first', 'what': 'sizes %s' % sizes,
                                    'case': {'sizes': sizes, 'is_spectral': True}})
         scribble(ind, val)
+    # designed: dimensions whose values arrive in DIFFERENT element types (integers first, fractions / negative numbers later):
+    # the values matrix holds value_d[index_d] whatever type each dimension was supplied in
+    hist['mixed_value_types'] = 0
+    for mixed in ([np.arange(3), np.array([0.5, 1.5])], [[0, 1, 2], [0.5, 1.5]],
+                  [np.array([0, 1], dtype=np.uint8), np.array([-1.5, 2.25, 3.0]), np.array([1, 2], dtype=np.int16)],
+                  [np.array([2, 4, 6], dtype=np.int64), np.array([0.25, -0.75], dtype=np.float32)]):
+        sizes = [len(v) for v in mixed]
+        fvals = [[float(x) for x in v] for v in mixed]
+        for is_spectral in (True, False):
+            hist['mixed_value_types'] += 1
+            try:
+                ind, val = abu.build_ind_val_matrices([np.array(v, copy=True) if isinstance(v, np.ndarray) else list(v) for v in mixed], is_spectral=is_spectral)
+            except Exception as e:
+                out.violations.append({'call_site': 'anc_build_utils.build_ind_val_matrices', 'input_class': 'mixed_value_types', 'failure_mode': 'raises',
+                                       'what': 'values %s: %r' % (fvals, e), 'case': {'values': fvals, 'is_spectral': is_spectral}})
+                continue
+            bcases.append(cpair(clist([[int(round(x * 4)) for x in v] for v in fvals], lambda r: clist(r, cZ)),
+                                cbool(is_spectral), cmat(mat(ind), cnat), cmat(z4(val), cZ)))
+            bmeta.append({'sizes': sizes, 'is_spectral': is_spectral, 'values': fvals, 'value_types': [str(np.asarray(v).dtype) for v in mixed]})
+            mode = oracle_build(sizes, fvals, is_spectral, ind, val)
+            if mode:
+                out.violations.append({'call_site': 'anc_build_utils.build_ind_val_matrices', 'input_class': 'mixed_value_types',
+                                       'failure_mode': mode, 'what': 'values %s is_spectral %s' % (fvals, is_spectral), 'case': bmeta[-1]})
+    # designed: WRITTEN matrices with far more entries than any block size a writer might use (and a number of points that is
+    # not a multiple of a power of two): every entry against the integer oracle, all four orientation / ordering combinations
+    hist['large_written_grids'] = 0
+    for sizes in [[250, 180], [181, 211], [37, 41, 29]] + ([] if ctx.quick() else [[7, 11, 13, 17], [300, 301]]):
+        k = len(sizes)
+        vals = [np.arange(sz, dtype=np.float64) * 0.5 - d for d, sz in enumerate(sizes)]
+        for is_spectral in (True, False):
+            for s2f in (False, True):
+                hist['large_written_grids'] += 1
+                grp = h5.create_group('big%05d' % gi)
+                gi += 1
+                dims = [usid.Dimension('L%d' % d, 'U%d' % d, vals[d]) for d in range(k)]
+                m = {'sizes': sizes, 'is_spectral': is_spectral, 'slow_to_fast': s2f, 'designed': 'large written grid'}
+                try:
+                    with common.quiet():
+                        write_ind_val_dsets(grp, dims, is_spectral=is_spectral, slow_to_fast=s2f)
+                except Exception as e:
+                    out.violations.append({'call_site': 'hdf_utils.write_ind_val_dsets', 'input_class': 'large_grid', 'failure_mode': 'raises', 'what': '%s: %r' % (m, e), 'case': m})
+                    continue
+                base = 'Spectroscopic_' if is_spectral else 'Position_'
+                oi, ov = grp[base + 'Indices'][()], grp[base + 'Values'][()]
+                o_i = (oi if is_spectral else oi.T).astype(np.int64)
+                o_v = (ov if is_spectral else ov.T).astype(np.float64)
+                stored = list(range(k)) if s2f else list(reversed(range(k)))      # stored[i] = caller's dimension at row i, slowest first
+                ff = fastest_first([sizes[d] for d in reversed(stored)])          # rows: fastest dimension first
+                exp_i = np.array([ff[list(reversed(stored)).index(d)] for d in stored])
+                exp_v = np.array([np.float32(vals[d])[exp_i[row]] for row, d in enumerate(stored)], dtype=np.float64)
+                if o_i.shape != exp_i.shape or not np.array_equal(o_i, exp_i) or not np.array_equal(o_v, exp_v):
+                    bad_at = None
+                    if o_i.shape == exp_i.shape:
+                        w = np.argwhere((o_i != exp_i) | (o_v != exp_v))
+                        bad_at = [int(x) for x in w[0]] if len(w) else None
+                    out.violations.append({'call_site': 'hdf_utils.write_ind_val_dsets', 'input_class': 'large_grid', 'failure_mode': 'written_matrix_not_cartesian_slowest_first',
+                                           'what': '%s first wrong entry (row, point) %s' % (m, bad_at), 'case': m})
+                del h5[grp.name]
     # designed: reference values that are NEARLY 0, 1, 2, ... (exact float32 comparison, outside the dyadic value model), and a
     # second write into the same group under the same names with OTHER values (refused, or written correctly -- never the old values)
     hist['near_integer_value_cases'] = 0
